@@ -1,0 +1,193 @@
+//go:build verif
+
+// Hooks for the receive-side checks of the external verification harness (/verif, properties
+// C06 and C11): direct calls of the two packetInput entry points and canonical deep snapshots
+// of a session / a listener.  Compiled only with -tags verif; add-only.
+package kcp
+
+import (
+	"encoding/hex"
+	"fmt"
+	"net"
+	"sort"
+	"strings"
+	"sync"
+)
+
+// VerifSessionPacketInput calls UDPSession.packetInput on a private copy of data (the real
+// read loop hands it a receive buffer which Decrypt overwrites in place).
+func VerifSessionPacketInput(s *UDPSession, data []byte) {
+	buf := make([]byte, len(data), mtuLimit+len(data))
+	copy(buf, data)
+	s.packetInput(buf)
+}
+
+// VerifListenerPacketInput calls Listener.packetInput on a private copy of data.
+func VerifListenerPacketInput(l *Listener, data []byte, addr net.Addr) {
+	buf := make([]byte, len(data), mtuLimit+len(data))
+	copy(buf, data)
+	l.packetInput(buf, addr)
+}
+
+// VerifSessionFlush is what update() does under the lock, without rescheduling.
+func VerifSessionFlush(s *UDPSession) {
+	s.mu.Lock()
+	s.kcp.flush(IKCP_FLUSH_FULL)
+	s.mu.Unlock()
+}
+
+func verifSeg(sb *strings.Builder, seg *segment) {
+	fmt.Fprintf(sb, "{%d %d %d %d %d %d %d %d %d %d %d %d %s}", seg.conv, seg.cmd, seg.frg, seg.wnd, seg.ts, seg.sn,
+		seg.una, seg.rto, seg.xmit, seg.resendts, seg.fastack, seg.acked, hex.EncodeToString(seg.data))
+}
+
+func verifRing(sb *strings.Builder, name string, r *RingBuffer[segment]) {
+	fmt.Fprintf(sb, "%s[%d]:", name, r.Len())
+	r.ForEach(func(seg *segment) bool {
+		verifSeg(sb, seg)
+		return true
+	})
+	sb.WriteByte('\n')
+}
+
+// VerifSessionSnapshot serialises every protocol-relevant field reachable from the session:
+// the KCP core (scalars, the four queues with every segment field and payload, the ack list),
+// the FEC decoder (parameters, shard sets sorted by key with their packets, the auto-tune
+// ring), the FEC encoder's counters, the partially read message (bufptr), the closed flag and
+// the wake-up tokens.  Not included: channels' identities, timers, deadlines, pointers, pooled
+// scratch buffers.  Taken under the session lock.
+func VerifSessionSnapshot(s *UDPSession) []byte {
+	var sb strings.Builder
+	s.mu.Lock()
+	defer s.mu.Unlock()
+	k := s.kcp
+	fmt.Fprintf(&sb, "core conv=%d mtu=%d mss=%d state=%d una=%d nxt=%d rcv_nxt=%d ssthresh=%d rttvar=%d srtt=%d rto=%d minrto=%d snd_wnd=%d rcv_wnd=%d rmt_wnd=%d cwnd=%d incr=%d probe=%d ts_probe=%d probe_wait=%d interval=%d ts_flush=%d nodelay=%d updated=%d dead_link=%d fastresend=%d nocwnd=%d stream=%d\n",
+		k.conv, k.mtu, k.mss, k.state, k.snd_una, k.snd_nxt, k.rcv_nxt, k.ssthresh, k.rx_rttvar, k.rx_srtt, k.rx_rto, k.rx_minrto,
+		k.snd_wnd, k.rcv_wnd, k.rmt_wnd, k.cwnd, k.incr, k.probe, k.ts_probe, k.probe_wait, k.interval, k.ts_flush, k.nodelay,
+		k.updated, k.dead_link, k.fastresend, k.nocwnd, k.stream)
+	verifRing(&sb, "snd_queue", k.snd_queue)
+	verifRing(&sb, "snd_buf", k.snd_buf)
+	verifRing(&sb, "rcv_queue", k.rcv_queue)
+	fmt.Fprintf(&sb, "rcv_buf[%d]:", len(k.rcv_buf.segments))
+	for i := range k.rcv_buf.segments {
+		verifSeg(&sb, &k.rcv_buf.segments[i])
+	}
+	marks := make([]uint32, 0, len(k.rcv_buf.marks))
+	for m := range k.rcv_buf.marks {
+		marks = append(marks, m)
+	}
+	sort.Slice(marks, func(i, j int) bool { return marks[i] < marks[j] })
+	fmt.Fprintf(&sb, " marks=%v\nacklist=%v\n", marks, k.acklist)
+	if d := s.fecDecoder; d != nil {
+		fmt.Fprintf(&sb, "dec d=%d p=%d size=%d paws=%d newest=%d tune=%v\n", d.dataShards, d.parityShards, d.shardSize, d.paws, d.newestShardId, d.shouldTune)
+		keys := make([]uint32, 0, len(d.shardSet))
+		for id := range d.shardSet {
+			keys = append(keys, id)
+		}
+		sort.Slice(keys, func(i, j int) bool { return keys[i] < keys[j] })
+		for _, id := range keys {
+			h := d.shardSet[id]
+			fmt.Fprintf(&sb, " set %d[%d]:", id, len(h.elements))
+			for _, e := range h.elements {
+				sb.WriteString(hex.EncodeToString(e))
+				sb.WriteByte(',')
+			}
+			ms := make([]uint32, 0, len(h.marks))
+			for m := range h.marks {
+				ms = append(ms, m)
+			}
+			sort.Slice(ms, func(i, j int) bool { return ms[i] < ms[j] })
+			fmt.Fprintf(&sb, " marks=%v\n", ms)
+		}
+		t := &d.autoTune
+		fmt.Fprintf(&sb, " tune head=%d tail=%d count=%d:", t.head, t.tail, t.count)
+		for i := range t.pulses {
+			p := t.pulses[i]
+			if p.bit || p.seq != 0 {
+				fmt.Fprintf(&sb, "%d=%v/%d,", i, p.bit, p.seq)
+			}
+		}
+		sb.WriteByte('\n')
+	} else {
+		sb.WriteString("dec nil\n")
+	}
+	if e := s.fecEncoder; e != nil {
+		fmt.Fprintf(&sb, "enc d=%d p=%d next=%d count=%d max=%d paws=%d\n", e.dataShards, e.parityShards, e.next, e.shardCount, e.maxSize, e.paws)
+	} else {
+		sb.WriteString("enc nil\n")
+	}
+	fmt.Fprintf(&sb, "bufptr=%s hdr=%d acknodelay=%v writedelay=%v dup=%d closed=%v rdtok=%d wrtok=%d\n", hex.EncodeToString(s.bufptr),
+		s.headerSize, s.ackNoDelay, s.writeDelay, s.dup, s.isClosed(), len(s.chReadEvent), len(s.chWriteEvent))
+	return []byte(sb.String())
+}
+
+var (
+	verifIdxMu   sync.Mutex
+	verifIdx     = map[*UDPSession]int{}
+	verifIdxNext = map[*Listener]int{}
+)
+
+// VerifSessionIndex returns a per-listener creation index standing for the session's pointer
+// identity: indices are handed out in the order sessions are first seen by this function or by
+// VerifListenerSnapshot (the harness takes a snapshot after every datagram, so first-seen order
+// is creation order).
+func VerifSessionIndex(l *Listener, s *UDPSession) int {
+	verifIdxMu.Lock()
+	defer verifIdxMu.Unlock()
+	if i, ok := verifIdx[s]; ok {
+		return i
+	}
+	i := verifIdxNext[l]
+	verifIdxNext[l] = i + 1
+	verifIdx[s] = i
+	return i
+}
+
+// VerifListenerForget drops the identity registry entries of a listener (harness housekeeping).
+func VerifListenerForget(l *Listener) {
+	verifIdxMu.Lock()
+	defer verifIdxMu.Unlock()
+	for s := range verifIdx {
+		if s.l == l {
+			delete(verifIdx, s)
+		}
+	}
+	delete(verifIdxNext, l)
+}
+
+// VerifListenerSessions returns the session table sorted by address string.
+func VerifListenerSessions(l *Listener) (addrs []string, sessions []*UDPSession) {
+	l.sessionLock.RLock()
+	for a := range l.sessions {
+		addrs = append(addrs, a)
+	}
+	sort.Strings(addrs)
+	for _, a := range addrs {
+		sessions = append(sessions, l.sessions[a])
+	}
+	l.sessionLock.RUnlock()
+	return
+}
+
+// VerifListenerSnapshot: "addr/conv/index" for every mapped session sorted by address, then
+// the length of the accept queue.
+func VerifListenerSnapshot(l *Listener) []byte {
+	addrs, sessions := VerifListenerSessions(l)
+	var sb strings.Builder
+	sb.WriteString("t=")
+	for i, a := range addrs {
+		if i > 0 {
+			sb.WriteByte(',')
+		}
+		s := sessions[i]
+		fmt.Fprintf(&sb, "%s/%d/%d", a, s.kcp.conv, VerifSessionIndex(l, s))
+		if s.isClosed() {
+			sb.WriteString("/closed")
+		}
+	}
+	if len(addrs) == 0 {
+		sb.WriteByte('-')
+	}
+	fmt.Fprintf(&sb, " q=%d", len(l.chAccepts))
+	return []byte(sb.String())
+}
